@@ -21,6 +21,8 @@ TECHNIQUE = "TLA+ spec of the storage stack with crash points, TLC exhaustive + 
 CRASH_POINTS = ["snap.ckpt.full", "snap.staged", "snap.persisted", "snap.finalized", "fp.tmp", "snap.release",
                 "restore.extracted", "restore.fpremoved", "restore.swapped", "restore.fp"]
 
+REAP_POINTS = ["reap.plan", "ckptwal.renamed", "ckptwal.done", "plan.op.post", "reap.done"]
+
 def crash_point_cases(quick):
     cases = []
     hist = "w:1,s,w:12,w:2,s,w:1,w:2,s,w:12"           # full, then two incrementals
@@ -40,6 +42,15 @@ def crash_point_cases(quick):
                 {"script": hist + ",x", "crash": "%s#%d" % (pt, k), "recover": False, "rmfp": False},
                 {"script": "w:1,s,w:2,c", "crash": "", "recover": False, "rmfp": False},
                 {"script": "c", "crash": "", "recover": False, "rmfp": False}]})
+    # a reap (consolidation of the incrementals into the full snapshot) interrupted at its crash points; the next life
+    # must rebuild the database from the snapshot store alone (fingerprint removed: no fast path) and lose nothing
+    for pt in REAP_POINTS:
+        for k in ((1, 2) if quick else (1, 2, 3, 4)):
+            cases.append({"id": "reap-%s-%d" % (pt, k), "phases": [
+                {"script": hist + ",r,x", "crash": "%s#%d" % (pt, k), "recover": False, "rmfp": False},
+                {"script": "c", "crash": "", "recover": False, "rmfp": True},
+                {"script": "w:1,s,w:2,r,c", "crash": "", "recover": False, "rmfp": False},
+                {"script": "c", "crash": "", "recover": False, "rmfp": True}]})
     return cases
 
 def run(ctx):
